@@ -465,6 +465,20 @@ class MailboxSet(MailboxSetInterface[MailboxData]):
     def delimiter(self) -> str:
         return '/'
 
+    def _check_name(self, name: str, exc_type: type[Exception]) -> None:
+        # Every part of the name becomes (part of) a path component, so
+        # refuse any that would address something other than a sub-folder.
+        if name == 'INBOX':
+            return
+        for part in name.split(self.delimiter):
+            if part in ('', '.', '..') or os.sep in part or '\0' in part:
+                raise exc_type(name)
+        try:
+            if len(os.fsencode(name)) > 240:
+                raise exc_type(name)
+        except UnicodeEncodeError as exc:
+            raise exc_type(name) from exc
+
     async def set_subscribed(self, name: str, subscribed: bool) -> None:
         async with Subscriptions.with_write(self._path) as subs:
             subs.set(name, subscribed)
@@ -481,6 +495,7 @@ class MailboxSet(MailboxSetInterface[MailboxData]):
         return ListTree(self.delimiter).update('INBOX', *mailboxes)
 
     async def get_mailbox(self, name: str) -> MailboxData:
+        self._check_name(name, KeyError)
         if name == 'INBOX':
             maildir = self._inbox_maildir
         else:
@@ -499,6 +514,7 @@ class MailboxSet(MailboxSetInterface[MailboxData]):
         return await mbx.reset()
 
     async def add_mailbox(self, name: str) -> ObjectId:
+        self._check_name(name, ValueError)
         try:
             self._layout.add_folder(name, self.delimiter)
         except FileExistsError as exc:
@@ -509,6 +525,7 @@ class MailboxSet(MailboxSetInterface[MailboxData]):
         return ObjectId(global_uid)
 
     async def delete_mailbox(self, name: str) -> None:
+        self._check_name(name, KeyError)
         try:
             self._layout.remove_folder(name, self.delimiter)
         except FileNotFoundError as exc:
@@ -519,6 +536,8 @@ class MailboxSet(MailboxSetInterface[MailboxData]):
             raise exc
 
     async def rename_mailbox(self, before: str, after: str) -> None:
+        self._check_name(before, KeyError)
+        self._check_name(after, ValueError)
         if before == 'INBOX':
             raise NotSupportedError()  # TODO
         else:
